@@ -82,6 +82,25 @@ theorem migrate_target_available (s : St) (g : GId) (n : Name) (target : WId) (p
           refine ⟨rfl, w, (getW_some hw).1, (getW_some hw).2, ?_⟩
           simpa [Worker.isAvailable] using hav
 
+/-- the monolithic `migrate_pipeline` (manual calls, failover, drain, rebalance) changes the state only when
+its target is registered and available -/
+theorem migrate_only_onto_available (s : St) (g : GId) (n : Name) (t : WId) (ok : Bool)
+    (h : migrateAtomic s g n t ok ≠ s) :
+    ∃ w ∈ s.workers, w.id = t ∧ w.status = .ready ∧ w.running < w.maxP := by
+  unfold migrateAtomic at h
+  cases hp : s.getP g n with
+  | none => simp [hp] at h
+  | some r =>
+    cases hw : s.getW t with
+    | none => simp [hp, hw] at h
+    | some w =>
+      simp only [hp, hw] at h
+      by_cases hc : (w.isAvailable && s.hasGroup g && ok) = true
+      · simp only [Bool.and_eq_true] at hc
+        refine ⟨w, (getW_some hw).1, (getW_some hw).2, ?_⟩
+        simpa [Worker.isAvailable] using hc.1.1
+      · simp [hc] at h
+
 /-- **a sweep marks a Ready worker unhealthy iff its last heartbeat is older than the timeout** (strictly);
 every other worker, and every other field, is left alone -/
 theorem sweep_marks_iff (timeout now : Nat) (w : Worker) :
